@@ -455,6 +455,9 @@ func (v *Verifier) finish(r *Root, e *Enc) {
 				strings.HasPrefix(name, "iter:") || name == "nextRef" || strings.HasPrefix(name, "ghost:") {
 				continue
 			}
+			if strings.HasPrefix(name, "heap:[") {
+				continue // literal/varargs construction buffers: arrays are never reachable from parameters here
+			}
 			init := r.initState(name)
 			fin := final[name]
 			if fin == init {
